@@ -30,7 +30,7 @@ MC_CFG_ALIAS = c06.MC_CFG
 
 def gen_token(rng, kind):
     tok = {'methods': ['password'], 'expires_at': '2038-01-18T21:14:07Z', 'issued_at': '2000-01-18T21:14:07Z',
-           'roles': [{'name': r, 'id': 'id-' + r} for r in rng.sample(['admin', 'member', 'reader', 'Admin', 'ops'], rng.randint(0, 3))],
+           'roles': [{'name': r, 'id': 'id-' + r} for r in rng.sample(['admin', 'member', 'reader', 'Admin', 'ops', 'ADMIN'], rng.randint(0, 3))],
            'user': {'id': rng.choice(['u1', 'u2']), 'name': 'user', 'domain': {'id': 'd1', 'name': 'Default'}}}
     if kind == 'project':
         tok['project'] = {'id': rng.choice(['p1', 'p2']), 'name': 'proj', 'domain': {'id': 'd1', 'name': 'Default'}, 'enabled': True}
@@ -52,7 +52,7 @@ def leaf(rng):
     if r < 0.6:
         return ev.generic('user_id', ev.ph('user_id'))
     if r < 0.7:
-        return ev.generic(rng.choice(['is_admin', 'system_scope', 'user.domain.id', 'project.domain.id', 'roles']), rng.choice(['True', 'all', 'd1', 'admin']))
+        return ev.generic(rng.choice(['is_admin', 'system_scope', 'user.domain.id', 'project.domain.id', 'roles', 'roles']), rng.choice(['True', 'all', 'd1', 'admin', 'Admin', 'ADMIN']))
     if r < 0.78:
         return ev.generic(rng.choice(["'lit'", 'True', '1']), ev.ph(rng.choice(['flag', 'n.k'])))
     return rng.choice([ev.T, ev.F])
